@@ -81,7 +81,7 @@ theorem CPost.flip {lm : List (Nat × Nat)} {S t : Tbl} (hS : WF S) (hw : WF t) 
     · simp only [hneg, if_true]; omega
     · simp only [hneg, if_false]; omega
   · intro a
-    rw [den_flip t hw r u a h.mr, h.den a, den_natAbs S hS u hu]
+    rw [den_flip t hw r u a h.mr, h.den a, den_abs_sign S hS u hu]
 
 theorem mul_pos_of_same_sign (p v : Int) (hp : p ≠ 0) (hv : v ≠ 0) (h : 0 < p ↔ 0 < v) :
     0 < p * v := by
